@@ -5,6 +5,7 @@ import concurrent.futures as cf
 import hashlib
 import json
 import os
+import signal
 import subprocess
 import sys
 import time
@@ -220,11 +221,19 @@ def run_jobs(jobs, deadline=None, nproc=None, pin=True):
         to = None
         if deadline is not None:
             to = max(5.0, deadline - time.time())
+        # own session: at the deadline the whole process group goes (a harness forks one child per case / execution, and a child of a
+        # broken tree may spin for ever; killing only the harness would leave those behind to eat the machine)
+        pr = subprocess.Popen(argv, stdout=subprocess.PIPE, stderr=subprocess.PIPE, env=env, start_new_session=True)
         try:
-            r = subprocess.run(argv, stdout=subprocess.PIPE, stderr=subprocess.PIPE, env=env, timeout=to)
-            rc, out, err = r.returncode, r.stdout, r.stderr
-        except subprocess.TimeoutExpired as e:
-            rc, out, err = -999, e.stdout or b"", e.stderr or b""
+            out, err = pr.communicate(timeout=to)
+            rc = pr.returncode
+        except subprocess.TimeoutExpired:
+            try:
+                os.killpg(pr.pid, signal.SIGKILL)
+            except Exception:
+                pr.kill()
+            out, err = pr.communicate()
+            rc = -999
         recs = []
         for line in out.decode("utf-8", "replace").splitlines():
             line = line.strip()
